@@ -297,6 +297,10 @@ def reductions(sc):
             c = _cp(sc)
             del c["grid"][key]
             yield f"grid:no_{key}", c
+    if sc.get("native_times"):
+        c = _cp(sc)
+        del c["native_times"]
+        yield "time:strings", c
     if sc["frames"].get("land_fill"):
         c = _cp(sc)
         del c["frames"]["land_fill"]
